@@ -227,3 +227,4 @@ void out_f32(FILE *f, const char *name, long n, const float *v) { fprintf(f, "g 
 void out_f64_1(FILE *f, const char *name, double v) { out_f64(f, name, 1, &v); }
 void out_f32_1(FILE *f, const char *name, float v) { out_f32(f, name, 1, &v); }
 void out_begin_marker(const char *fam, long id) { fprintf(stderr, "BEGIN %s %ld\n", fam, id); fflush(stderr); }
+void out_begin_note(const char *fam, long id, const char *note) { fprintf(stderr, "BEGIN %s %ld %s\n", fam, id, note); fflush(stderr); }
